@@ -216,16 +216,16 @@ def check_flatten(ctx, db):
 
 def run(ctx):
     db = ctx.db
-    check_copies(ctx, db)
-    check_reference_collectors(ctx, db)
-    check_cell_collectors(ctx, db)
-    check_flatten(ctx, db)
+    ctx.attempt(check_copies, ctx, db)
+    ctx.attempt(check_reference_collectors, ctx, db)
+    ctx.attempt(check_cell_collectors, ctx, db)
+    ctx.attempt(check_flatten, ctx, db)
     # a repetition kept attached under a reference is mapped by the placement's linear part: exact identities (C11's obligation, shared)
     from . import C11, C10
-    C11.check_transform_algebra(ctx, db)
-    C10.check_signs(ctx, db)
-    C10.check_affine_algebra(ctx, db)   # the point maps the collectors apply are exactly the documented affine maps
-    C10.check_element_maps(ctx, db)     # element transforms of polygons and paths (points, widths, offsets, lengths) by generic-element execution
+    ctx.attempt(C11.check_transform_algebra, ctx, db)
+    ctx.attempt(C10.check_signs, ctx, db)
+    ctx.attempt(C10.check_affine_algebra, ctx, db)# the point maps the collectors apply are exactly the documented affine maps
+    ctx.attempt(C10.check_element_maps, ctx, db)# element transforms of polygons and paths (points, widths, offsets, lengths) by generic-element execution
 
 
 MANIFEST = dict(
